@@ -82,6 +82,9 @@ CHECKS = {
         'level_note': 'real JWTSessionCodec.Decode/New and golang-jwt ParseWithClaims (ValidMethods loop, key function, StandardClaims.Valid, VerifyAudience/VerifyIssuer) executed from SSA. Token serialisation and signature verification are contract stubs: a token is a string with a provenance (signing key, algorithm, claims); Verify succeeds only under the public half of the signing key with the same algorithm. Provenances: garbage, this key+alg, other key, alg none, HS256 over public bytes, RS384 with this key, tracking-token claims. Outside: RS256/ES256 themselves, JSON encoding of claims.',
         'harnesses': [
             {'name': 'Harness_C16_decode', 'pkg': 'samlsp', 'replay': 'direct', 'must_reach': ['session', 'no-session'], 'opts': {'K': 1}},
+            {'name': 'Harness_C16_gate', 'pkg': 'samlsp', 'replay': 'direct', 'must_reach': ['served', 'handler-ran', 'handler-not-run'],
+             'validate_labels': ['handler-ran', 'handler-not-run']},
+            {'name': 'Harness_C16_attribute', 'pkg': 'samlsp', 'replay': 'direct', 'must_reach': ['served', 'admitted']},
         ],
     },
     'C17': {
